@@ -110,14 +110,15 @@ CallStep(st, fr) ==
     [] k = "group_by" ->          \* q = keys, q2 = subject ids
          IF nd.dead THEN Fault(st, "spec:call-after-move")
          ELSE IF t = "N" THEN
-           LET key == KeyF(nd.a, v)
-               idx == IndexOf(nd.q, key) IN
+           LET key == IF nd.a = 3 THEN I(nd.n % 2) ELSE KeyF(nd.a, v)      \* key function 3 is stateful: 0, 1, 0, 1, ... (n = items seen)
+               idx == IndexOf(nd.q, key)
+               st0 == [st EXCEPT !.nodes[n].n = @ + 1] IN
            IF idx = 0 THEN
-             LET st1 == NewSubject(st, FALSE, U)
+             LET st1 == NewSubject(st0, FALSE, U)
                  sid == Len(st1.subj)
                  st2 == [st1 EXCEPT !.nodes[n].q = Append(@, key), !.nodes[n].q2 = Append(@, sid)]
              IN Push(st2, <<CallN(d, G(sid, key))>> \o SubjEmit(st2, sid, "N", v))
-           ELSE Push(st, SubjEmit(st, nd.q2[idx], "N", v))
+           ELSE Push(st0, SubjEmit(st0, nd.q2[idx], "N", v))
          ELSE Push([st EXCEPT !.nodes[n].dead = TRUE], GroupTerm(st, nd.q2, t, v) \o <<Call(d, t, v)>>)
     (* ---- finalize ---- *)
     [] k = "finobs" ->
